@@ -60,6 +60,32 @@ func facts(pkgs map[string]*pkgInfo) string {
 			})
 			flow := skeleton(pi, fd, n, &sends, &recvs, &gos)
 			fmt.Fprintf(&b, "Definition flow_%s_%s : list string :=\n  [%s].\n", pn, coqIdent(n), strings.Join(flow, "; "))
+			// the source text of every if / for / switch-case condition, in source order, and the
+			// field names initialised by composite literals (e.g. Client(): lastsent: time.Now())
+			var conds, inits []string
+			ast.Inspect(fd.Body, func(x ast.Node) bool {
+				switch v := x.(type) {
+				case *ast.IfStmt:
+					conds = append(conds, coqStr(exprText(pi, v.Cond)))
+				case *ast.ForStmt:
+					if v.Cond != nil {
+						conds = append(conds, coqStr("for "+exprText(pi, v.Cond)))
+					}
+				case *ast.CompositeLit:
+					for _, e := range v.Elts {
+						if kv, ok := e.(*ast.KeyValueExpr); ok {
+							if id, ok := kv.Key.(*ast.Ident); ok {
+								inits = append(inits, coqStr(id.Name+": "+exprText(pi, kv.Value)))
+							}
+						}
+					}
+				}
+				return true
+			})
+			fmt.Fprintf(&b, "Definition conds_%s_%s : list string :=\n  [%s].\n", pn, coqIdent(n), strings.Join(conds, "; "))
+			if len(inits) > 0 {
+				fmt.Fprintf(&b, "Definition inits_%s_%s : list string :=\n  [%s].\n", pn, coqIdent(n), strings.Join(inits, "; "))
+			}
 		}
 		fmt.Fprintf(&b, "\nDefinition chan_sends_%s : list (string * string) :=\n  [%s].\n", pn, strings.Join(sends, "; "))
 		fmt.Fprintf(&b, "Definition chan_recvs_%s : list (string * string) :=\n  [%s].\n", pn, strings.Join(recvs, "; "))
